@@ -19,21 +19,41 @@ Definition mem_name (n : list Z) (used : list (list Z)) : bool := existsb (zlist
 (* '%.03d' % k for 0 <= k < 1000 *)
 Definition digits3 (k : Z) : list Z := [48 + k / 100; 48 + (k / 10) mod 10; 48 + k mod 10].
 
-Definition candidate (is_dir : bool) (prefix ext : list Z) (k : Z) : list Z :=
+(* the candidate name number k.  [candidate_old] is the tool before the fix: the dot is written even without an extension;
+   [candidate]: a file without extension gets no dot *)
+Definition candidate_old (is_dir : bool) (prefix ext : list Z) (k : Z) : list Z :=
   if is_dir then prefix ++ digits3 k else prefix ++ digits3 k ++ [46] ++ ext.
+Definition candidate (is_dir : bool) (prefix ext : list Z) (k : Z) : list Z :=
+  if is_dir then prefix ++ digits3 k
+  else match ext with [] => prefix ++ digits3 k | _ => prefix ++ digits3 k ++ [46] ++ ext end.
 
 (* the while loop: first free candidate among currnum = k, k+1, ... < 1000 *)
-Fixpoint find_free (fuel : nat) (is_dir : bool) (prefix ext : list Z) (used : list (list Z)) (k : Z) : option (list Z) :=
+Fixpoint find_free_c (fuel : nat) (cand : Z -> list Z) (used : list (list Z)) (k : Z) : option (list Z) :=
   match fuel with
   | O => None
-  | S f => let c := candidate is_dir prefix ext k in
-           if mem_name c used then find_free f is_dir prefix ext used (k + 1) else Some c
+  | S f => let c := cand k in
+           if mem_name c used then find_free_c f cand used (k + 1) else Some c
   end.
+Definition find_free (fuel : nat) (is_dir : bool) (prefix ext : list Z) := find_free_c fuel (candidate is_dir prefix ext).
+Definition find_free_old (fuel : nat) (is_dir : bool) (prefix ext : list Z) := find_free_c fuel (candidate_old is_dir prefix ext).
 
-(* build_iso_path's name part: returns the chosen name and the new mangled_children, None = "skipping" *)
+(* the name part of a mangled FILE name "name.ext" (mangle_file_for_iso9660 returns the two parts) *)
+Definition fname (filemangle ext : list Z) : list Z :=
+  match ext with [] => filemangle | _ => firstn (length filemangle - length ext - 1) filemangle end.
+
+(* build_iso_path's name part: returns the chosen name and the new mangled_children, None = "skipping".
+   The prefix that is numbered is cut from the NAME part of a file (repaired tool); [assign_name_old] is the tool before the
+   fix, which cut it from the whole mangled name -- dot, extension and version included *)
 Definition assign_name (is_dir : bool) (filemangle ext : list Z) (used : list (list Z)) : option (list Z * list (list Z)) :=
   if mem_name filemangle used then
-    match find_free 1000 is_dir (firstn 5 filemangle) ext used 0 with
+    match find_free 1000 is_dir (firstn 5 (if is_dir then filemangle else fname filemangle ext)) ext used 0 with
+    | Some n => Some (n, n :: used)
+    | None => None
+    end
+  else Some (filemangle, filemangle :: used).
+Definition assign_name_old (is_dir : bool) (filemangle ext : list Z) (used : list (list Z)) : option (list Z * list (list Z)) :=
+  if mem_name filemangle used then
+    match find_free_old 1000 is_dir (firstn 5 filemangle) ext used 0 with
     | Some n => Some (n, n :: used)
     | None => None
     end
